@@ -15,7 +15,7 @@
 import re
 from typing import List, Match, Optional
 
-from rimu import quotes, replacements, utils
+from rimu import options, quotes, replacements, utils
 
 
 class Fragment:
@@ -62,8 +62,12 @@ def fragQuotes(fragments: List[Fragment]) -> List[Fragment]:
     return result
 
 
-def fragQuote(fragment: Fragment) -> List[Fragment]:
-    '''Fragment quotes in a single fragment and return resulting fragments array.'''
+# Quotes nested deeper than this are not processed (their delimiters stay text).
+MAX_QUOTE_DEPTH = 100
+
+
+def fragQuote(fragment: Fragment, depth: int = 0) -> List[Fragment]:
+    '''Fragment quotes in a single fragment and return resulting fragments array; depth is the number of quotes around it.'''
     if fragment.done:
         return [fragment]
     result: List[Fragment] = []
@@ -111,9 +115,13 @@ def fragQuote(fragment: Fragment) -> List[Fragment]:
             quoted = utils.replaceSpecialChars(quoted)
             quoted = quoted.replace('\u0000', '\u0001')  # Substitute verbatim replacement placeholder.
             result.append(Fragment(text=quoted, done=True))
+        elif depth >= MAX_QUOTE_DEPTH:
+            # Too deeply nested to go on (every level takes interpreter stack): the quoted text is text.
+            options.errorCallback('quote nesting limit exceeded: ' + quote)
+            result.append(Fragment(text=quoted, done=False))
         else:
             # Recursively process the quoted text.
-            result.extend(fragQuote(Fragment(text=quoted, done=False)))
+            result.extend(fragQuote(Fragment(text=quoted, done=False), depth + 1))
         result.append(Fragment(text=qdef.closeTag, done=True))
         # Continue with the following text.
         text = after
